@@ -414,6 +414,10 @@ impl<'a, W: 'static, R: 'static, T: 'static> RuntimeScope<'a, W, R, T> {
                 self.eval_func_with_expressions(func, &args, rt, tail_available)
             }
             XFunction::UserFunction { template, output } => {
+                // an error argument prevents the call and is its result (leftmost first)
+                if let Some(err) = args.iter().find_map(|a| a.as_ref().err()) {
+                    return Ok(TailedEvalResult::Value(Err(err.clone())));
+                }
                 {
                     rt.increment_call_limit()?;
                     rt.check_timeout()?;
@@ -431,6 +435,9 @@ impl<'a, W: 'static, R: 'static, T: 'static> RuntimeScope<'a, W, R, T> {
                                 if recursion_depth > recursion_limit {
                                     return Err(RuntimeViolation::MaximumRecursion);
                                 }
+                            }
+                            if let Some(err) = new_args.iter().find_map(|a| a.as_ref().err()) {
+                                break Ok(TailedEvalResult::Value(Err(err.clone())));
                             }
                             args = new_args;
                         }
